@@ -415,6 +415,10 @@ def binop(ex, op, l, r, node):
             return l % r
         if op == "Pow" and isinstance(l, (int, float)) and isinstance(r, (int, float)):
             return l ** r
+        if op == "Pow" and isinstance(r, z3.ArithRef) and r.is_int():
+            from .logic import rpow
+            base = l if isinstance(l, z3.ArithRef) else z3.RealVal(l)
+            return rpow(z3.ToReal(base) if base.is_int() else base, r)
     if isinstance(l, (tuple, list, str)) and type(l) is type(r) and op == "Add":
         return l + r
     if isinstance(l, (tuple, list)) and isinstance(r, int) and op == "Mult":
